@@ -86,7 +86,8 @@ def run_one(name, patch, breaks, tier, run_tests, only_props):
             c = subprocess.run(
                 [os.path.join(HERE, 'bin', 'check'), pid, '--tier', tier],
                 capture_output=True, text=True,
-                env=dict(os.environ, TSV_REPO=d, TSV_OUT=os.path.join(d, 'out')))
+                env=dict(os.environ, TSV_REPO=d, TSV_OUT=os.path.join(d, 'out'),
+                     TSV_FAILFAST=os.environ.get('TSV_FAILFAST', '1')))
             viol = [l for l in c.stdout.splitlines() if l.startswith('VIOLATION')]
             detail = [l.strip() for l in c.stdout.splitlines() if l.startswith('  check=')]
             res['checks'][pid] = {
